@@ -275,6 +275,7 @@ def cell_specs(spec, table, ci):
 
 
 def encode_variant(flags, pool, console, table, avail, spec):
+    incoming = incoming_options(console, spec)
     """Variant request text for a real table + everything the direct evaluation needs (padded cells)."""
     ncols = len(table.columns)
     cols_enc = []
@@ -288,7 +289,7 @@ def encode_variant(flags, pool, console, table, avail, spec):
         assert len(keys) == len(rs), (keys, rs)
         for ri, r in enumerate(rs):
             pad = (r.top, r.right, r.bottom, r.left) if any(table.padding) else None
-            ids.append(pool.cell((repr(keys[ri]), pad), r, column.justify, column.overflow, column.no_wrap, table.highlight))
+            ids.append(pool.cell((repr(keys[ri]), pad), r, table, column))
         n_body = len(column._cells)
         hdr = ids[0] if table.show_header else None
         ftr = ids[-1] if table.show_footer else None
@@ -299,10 +300,10 @@ def encode_variant(flags, pool, console, table, avail, spec):
     ti = ca = None
     t_ann = annotation_text(console, table, "title")
     if t_ann is not None:
-        ti = pool.annotation(("title", repr(table.title)), t_ann[0], t_ann[1], table.highlight)
+        ti = pool.annotation(("title", repr(table.title)), t_ann[0], t_ann[1], table, incoming)
     c_ann = annotation_text(console, table, "caption")
     if c_ann is not None:
-        ca = pool.annotation(("caption", repr(table.caption)), c_ann[0], c_ann[1], table.highlight)
+        ca = pool.annotation(("caption", repr(table.caption)), c_ann[0], c_ann[1], table, incoming)
     pt, pr, pb, pl = table.padding
     opts = " ".join([box_name(table.box), b(table.show_header), b(table.show_footer), b(table.show_edge), b(table.show_lines),
                      str(int(table.leading)), str(pt), str(pr), str(pb), str(pl), b(table.pad_edge), b(table.collapse_padding),
@@ -313,10 +314,10 @@ def encode_variant(flags, pool, console, table, avail, spec):
     return text, padded, ncols
 
 
-def real_answer(console, table):
+def real_answer(console, table, options=None):
     """(answer string, widths or None, lines or None) from real rich; the answer ends with `|M<min> <max>`, what
     `Table.__rich_measure__(console, options.max_width)` returns (or the error it raises)."""
-    options = console.options
+    options = console.options if options is None else options
     max_width = options.max_width if table.width is None else table.width
     try:
         m = table.__rich_measure__(console, options.max_width)
@@ -391,7 +392,7 @@ def evaluate(ctx, console, table, avail, widths, lines, padded, spec, text_cells
     for which in ("title", "caption"):
         ann = annotation_text(console, table, which)
         if ann is not None:
-            opts = console.options.update(width=table_width, highlight=table.highlight).update(justify=ann[1])
+            opts = annotation_options(console, table, incoming_options(console, spec), table_width, ann[1])
             n = len(plain_lines(list(console.render(ann[0], opts))))
             if which == "title":
                 nt = n
@@ -466,14 +467,14 @@ def evaluate(ctx, console, table, avail, widths, lines, padded, spec, text_cells
         return True
 
     cursor = 0
+    row_exps = []   # per matched row: per column the lines found INSIDE that column's span of the real output
     ok_rows = rect_ok
     why = ""
     for ri, rc in enumerate(row_cells if rect_ok else []):
         exp = []
         for ci, (w, r) in enumerate(zip(widths, rc)):
             column = table.columns[ci]
-            opts = console.options.update(width=w, highlight=table.highlight).update(width=w, justify=column.justify, no_wrap=column.no_wrap, overflow=column.overflow)
-            exp.append([line_text(l) for l in console.render_lines(r, opts)])
+            exp.append([line_text(l) for l in console.render_lines(r, cell_options(console, table, column, w))])
         h = max([1] + [len(e) for e in exp])
         exp = [e + [" " * w] * (h - len(e)) for e, w in zip(exp, widths)]
         found = None
@@ -490,6 +491,7 @@ def evaluate(ctx, console, table, avail, widths, lines, padded, spec, text_cells
             why = f"row {ri} (of {len(row_cells)}) not found in order at/after body line {cursor}: expected column contents {exp}; body {body}"
             break
         cursor = found + h
+        row_exps.append(exp)
     if ok_rows:
         for ln in body[cursor:]:
             if not rule_like(ln):
@@ -497,34 +499,39 @@ def evaluate(ctx, console, table, avail, widths, lines, padded, spec, text_cells
                 break
     if rect_ok:
         ctx.check(ok_rows, "rows_in_order/cells_in_column", spec, why)
-    # --- fold: every non-whitespace character of a plain-text cell, in order, inside its column's span
+    # --- fold: every non-whitespace character of the cell's SOURCE text, in order, inside its column's span of the real output
+    #     (row_exps[ri][ci] is what the table printed in column ci's span for row ri — verified line by line above; the source text
+    #     comes from the spec, so a wrapping / folding bug that loses characters is seen even if the table stays a rectangle)
     if ok_rows:
-        hdr = 1 if table.show_header else 0
         for ci, column in enumerate(table.columns):
-            if column.overflow != "fold" or column.no_wrap:
-                continue
             pad_w = table._get_padding_width(ci)
             for ri in range(len(row_cells)):
-                src = spec_cell_text(spec, table, ci, ri, len(row_cells))
+                src, nested = spec_cell_text(spec, table, ci, ri, len(row_cells))
                 if src is None:
+                    continue
+                # a plain-text cell folds only if its column says so; a nested folding table folds whatever its parent column says
+                if not nested and (column.overflow != "fold" or column.no_wrap):
                     continue
                 wide = any(cell_len(ch) == 2 for ch in src)
                 if widths[ci] - pad_w < (2 if wide else 1):
                     continue
-                opts = console.options.update(width=widths[ci], highlight=table.highlight).update(width=widths[ci], justify=column.justify, no_wrap=False, overflow="fold")
-                shown = "".join(line_text(l) for l in console.render_lines(row_cells[ri][ci], opts))
+                shown = "".join(row_exps[ri][ci])
                 want = [ch for ch in src if not ch.isspace()]
                 got = [ch for ch in shown if not ch.isspace()]
-                ctx.check(want == got, "fold_keeps_characters", (spec, ci, ri), f"cell text {src!r} shows as {shown!r} in a column of width {widths[ci]}")
+                ctx.check(want == got, "fold_keeps_characters", (spec, ci, ri),
+                          f"cell text {src!r} shows as {row_exps[ri][ci]!r} in column {ci} of width {widths[ci]}" + (" (nested folding table)" if nested else ""))
 
 
 def spec_cell_text(spec, table, ci, ri, nrows):
-    """plain text of the cell at (column ci, zipped row ri) when it is a str/Text cell, else None.
+    """(source text, nested?) of the cell at (column ci, zipped row ri): a str/Text cell's text, or the concatenated row texts of
+    a nested one-column folding table; (None, False) for anything else.
     (zip(*columns) truncates: the ri-th entry of EACH column's own `_get_cells` list)"""
     cs = cell_specs(spec, table, ci)[ri]
     if cs[0] in ("s", "t"):
-        return cs[1]
-    return None
+        return cs[1], False
+    if cs[0] == "ntable":
+        return " ".join(cs[1]), True
+    return None, False
 
 
 def spec_text_cells(spec):
@@ -647,8 +654,10 @@ class Bundle:
         console = make_console(avail)
         table = build_table(spec)
         text, padded, ncols = encode_variant(flags, self.pool, self.console, table, avail, spec)
-        ans, widths, lines = real_answer(console, table)
+        ans, widths, lines = real_answer(console, table, incoming_options(console, spec))
         self.variants.append((text, ans, spec))
+        ro = spec.get("render_opts") or {}
+        ctx.note("table:incoming:" + (",".join(f"{k}={v}" for k, v in sorted(ro.items())) or "default"))
         ctx.note(f"table:cols{ncols}")
         ctx.note(f"table:rows{len(spec['rows'])}")
         ctx.note("table:box:" + str(spec["opts"].get("box")))
